@@ -98,7 +98,18 @@ MUTS = {
 						req:     sf.req,
 						feature: feature,
 					}"""),
+ 'N13-deadline-copied-instead-of-watcher': ('session.go', """		defer setDeadline(ctx, conn)()""", """		if deadline, hasDeadline := ctx.Deadline(); hasDeadline {
+			conn.SetDeadline(deadline)
+			defer conn.SetDeadline(time.Time{})
+		} else {
+			defer setDeadline(ctx, conn)()
+		}"""),
+ 'N14-watcher-only-with-deadline': ('session.go', """		defer setDeadline(ctx, conn)()""", """		if _, hasDeadline := ctx.Deadline(); hasDeadline {
+			defer setDeadline(ctx, conn)()
+		}"""),
  # ---- harmless rewrites
+ 'H5-watcher-stop-in-variable': ('session.go', """		defer setDeadline(ctx, conn)()""", """		stop := setDeadline(ctx, conn)
+		defer stop()"""),
  'H1-sorted-map-iteration': ('features.go', '''				for _, v := range list.cache {''', '''				keys := make([]string, 0, len(list.cache))
 				for k := range list.cache {
 					keys = append(keys, k)
